@@ -21,6 +21,8 @@ ASSUMPTIONS = [
 ]
 REQUIRED_CLASSES = {'all': ['term', 'no-term']}
 QUICK_VALIDATE = 6
+MAX_PATHS = {'quick': 20000, 'thorough': 100000}
+CASE_SECONDS = {'quick': 240, 'thorough': 3000}
 
 
 def cases(tier):
@@ -32,8 +34,10 @@ def cases(tier):
             for who in ('A', 'B', 'AB'):
                 out.append(dict(na=na, nb=nb, kseg=2, term=who, dev=0))
     if tier == 'thorough':
-        out.append(dict(na=1, nb=1, kseg=2, term='A', dev=1))
-        out.append(dict(na=2, nb=0, kseg=2, term='B', dev=1))
+        # one scheduling deviation after the terminate() (network latency), one case per termination point
+        for pt in ('0', '4', '8', '16'):
+            out.append(dict(na=1, nb=1, kseg=2, term='A', dev=1, pts=pt))
+            out.append(dict(na=2, nb=0, kseg=2, term='B', dev=1, pts=pt))
     return out
 
 
@@ -46,6 +50,8 @@ def harness(case, tier):
         return {'class': 'not-established'}
     term = case['term']
     points = [0, 4, 8, 16, 10 ** 6] if tier == 'quick' else [0, 2, 4, 6, 8, 12, 16, 24, 10 ** 6]
+    if case.get('pts'):
+        points = [int(x) for x in str(case['pts']).split('/')]
     when = points[c.choose(len(points), 'terminate-point')] if term != 'none' else None
     for i in range(case['na']):
         queue_bundle(c, w, 'A', i, case['kseg'])
@@ -54,7 +60,7 @@ def harness(case, tier):
     termed = False
     if when is not None:
         start = w.steps
-        w.run(400, choose_budget=case['dev'], until=lambda: w.steps - start >= when)
+        w.run(400, choose_budget=0 if case.get('pts') else case['dev'], until=lambda: w.steps - start >= when)
         for h in ([w.a] if term == 'A' else [w.b] if term == 'B' else [w.a, w.b]):
             if h._in_sess and not h._in_term:
                 h.terminate(3)
